@@ -255,6 +255,41 @@ func CheckBackfillOrder(c *checker, o KVObs, collName string) {
 			c.add("C09", "backfill.order", "backfill not in CAS order: %d then %d", mid[i-1].Cas, mid[i].Cas)
 		}
 	}
+	// other start CAS values: exactly the documents with CAS >= s, same events as the full backfill
+	full := map[string]EventObs{}
+	for _, e := range mid {
+		full[e.Key] = e
+	}
+	for s, evs := range o.BackfillFrom {
+		if len(evs) < 2 || evs[0].Opcode != "BeginBackfill" || evs[len(evs)-1].Opcode != "EndBackfill" {
+			c.add("C09", "backfill.markers", "backfill from %d is not framed by markers: %v", s, evs)
+			continue
+		}
+		got := map[string]EventObs{}
+		var prev uint64
+		for _, e := range evs[1 : len(evs)-1] {
+			got[e.Key] = e
+			if e.Cas <= prev {
+				c.add("C09", "backfill.order", "backfill from %d not in CAS order", s)
+			}
+			prev = e.Cas
+		}
+		for _, r := range o.Dump.Docs {
+			if r.Collection != collName {
+				continue
+			}
+			e, ok := got[r.Key]
+			if r.Cas >= s && !ok {
+				c.add("C09", "backfill.startcas", "backfill from CAS %d omits %s whose CAS is %d", s, r.Key, r.Cas)
+			}
+			if r.Cas < s && ok {
+				c.add("C09", "backfill.startcas", "backfill from CAS %d includes %s whose CAS is %d", s, r.Key, r.Cas)
+			}
+			if ok && fmt.Sprint(e) != fmt.Sprint(full[r.Key]) {
+				c.add("C09", "backfill.startcas", "backfill from CAS %d describes %s as %s, the full backfill as %s", s, r.Key, e, full[r.Key])
+			}
+		}
+	}
 }
 
 // CheckKVStep is the per-transition oracle of the shared exploration.
